@@ -16,6 +16,11 @@ impl HeartbeatTimers {
         (self.timer.armed() ==> self.started@)
         && (self.started@ ==> self.timer.pending().count(HeartbeatKind::Rx) > 0 && self.timer.pending().count(HeartbeatKind::Tx) > 0)
     }
+    /// HeartbeatTimers::default(): nothing started, nothing armed
+    #[verifier::external_body]
+    pub fn default() -> (r: HeartbeatTimers)
+        ensures !r.started@, !r.timer.armed(), r.wf(),
+    { unimplemented!() }
     #[verifier::external_body]
     pub fn record_rx_activity(&mut self)
         ensures final(self).rx_marks@ == old(self).rx_marks@ + 1, final(self).tx_marks@ == old(self).tx_marks@, final(self).started@ == old(self).started@, final(self).timer == old(self).timer,
